@@ -49,6 +49,10 @@ func c05RunX(rc *simrt.RunCtx, faults, inject bool) {
 	// and push back on the sender when they are full
 	rf.capMsgs = []int{0, 0, 0, 0, 0, 0, 3, 16}[rc.Pick(8, "relay.k.capacity")]
 	rc.Knob("relay.capacity", rf.capMsgs)
+	// gRPC send streams are asynchronous: Send queues and returns, a
+	// cancelled stream context drops what is still queued
+	rf.asyncSend = []time.Duration{0, time.Millisecond, 5 * time.Millisecond}[rc.Pick(3, "relay.k.async-send")]
+	rc.Knob("relay.async-send", rf.asyncSend)
 	rl := newRelay(rc, rf)
 	maxV := []byte{2, 2, 1, 0}[rc.Pick(4, "knob.maxversion")]
 	authSize := []int{0, 40, 400, 3000}[rc.Pick(4, "knob.auth")]
